@@ -295,6 +295,7 @@ func TestC18(t *testing.T) {
 	r.Set("fs_direct_wall_s", time.Since(t0).Seconds())
 	t0 = time.Now()
 	vfsWatch(r)
+	vfsStartOverExistingFiles(r)
 	r.Set("fs_watch_wall_s", time.Since(t0).Seconds())
 
 	r.Set("exhaustive_subspace", "all sequences of length <= fs_max_sequence_length over fs_alphabet x delivery schedules (direct mode); watch mode is a seeded sample")
@@ -547,6 +548,81 @@ func vfsWatch(r *core.Run) {
 		st.add("fs_watch_sequences", 1)
 		if n == len(fixed) {
 			r.Sample(map[string]any{"provider": "file_system", "mode": "watch", "sequence": vfsSeqNames(seq)})
+		}
+		_ = os.RemoveAll(dir)
+	}
+}
+
+// vfsStartOverExistingFiles: files are already there when the provider starts, and they keep being touched while the
+// (slow) initial load is under way - an editor saving, a config-management run. Content is applied exactly once.
+func vfsStartOverExistingFiles(r *core.Run) {
+	base := vfRunDir("c18fs-start")
+	rounds := r.Pick(12, 60)
+	for n := 0; n < rounds; n++ {
+		dir := filepath.Join(base, fmt.Sprintf("s%d", n))
+		_ = os.MkdirAll(dir, 0o755)
+		ids := []string{fmt.Sprintf("st%d-a", n), fmt.Sprintf("st%d-b", n), fmt.Sprintf("st%d-c", n)}
+		for _, id := range ids {
+			if err := os.WriteFile(filepath.Join(dir, id+".yaml"), []byte(vfRuleSetYAML(id)), 0o600); err != nil {
+				r.Inconclusive("fs start: " + err.Error())
+				return
+			}
+		}
+		rec := vfNewRecorder()
+		sentinel := make(chan struct{})
+		var once sync.Once
+		rec.notify = func(c vfCall) {
+			if strings.HasPrefix(c.Content, "sentinel-") {
+				once.Do(func() { close(sentinel) })
+				return
+			}
+			// every processor call takes a while, and meanwhile all files are touched (same content, new mtime, write event)
+			now := time.Now()
+			for _, id := range ids {
+				_ = os.Chtimes(filepath.Join(dir, id+".yaml"), now, now)
+				_ = os.WriteFile(filepath.Join(dir, id+".yaml"), []byte(vfRuleSetYAML(id)), 0o600)
+			}
+			time.Sleep(15 * time.Millisecond)
+		}
+		p, err := vfsNewProvider(dir, rec, true)
+		if err != nil {
+			r.Inconclusive("fs start: NewProvider: " + err.Error())
+			return
+		}
+		if err := p.Start(context.Background()); err != nil {
+			r.Inconclusive("fs start: Start: " + err.Error())
+			return
+		}
+		// flush: a sentinel file moved into the directory is processed after everything that happened before
+		tmp := filepath.Join(base, fmt.Sprintf("tmp-sentinel-%d", n))
+		_ = os.WriteFile(tmp, []byte(vfRuleSetYAML(fmt.Sprintf("sentinel-start-%d", n))), 0o600)
+		_ = os.Rename(tmp, filepath.Join(dir, "zz-sentinel.yaml"))
+		select {
+		case <-sentinel:
+		case <-time.After(20 * time.Second):
+			_ = p.Stop(context.Background())
+			r.Inconclusive("fs start: sentinel not observed within the watchdog")
+			return
+		}
+		_ = p.Stop(context.Background())
+		perContent := map[string][]string{}
+		var all []string
+		for _, c := range rec.take() {
+			if strings.HasPrefix(c.Content, "sentinel-") || strings.Contains(c.Source, "zz-sentinel") {
+				continue
+			}
+			perContent[c.Content] = append(perContent[c.Content], c.Op)
+			all = append(all, c.String())
+		}
+		r.Case(fmt.Sprintf("fs|start-over-existing-files|%d", n), true)
+		r.Eval(1)
+		r.Count("fs_starts_over_existing_files", 1)
+		for _, id := range ids {
+			if ops := perContent[id]; len(ops) != 1 || ops[0] != "C" {
+				r.Violation("fs-content-not-applied-exactly-once", fmt.Sprintf("file_system: rule set %s, present at start and touched (unchanged) during the initial load, caused the calls %v; expected exactly one C", id, ops),
+					map[string]any{"provider": "file_system", "mode": "start over existing files (watch: true)", "files": ids, "calls": all})
+				break
+			}
 		}
 		_ = os.RemoveAll(dir)
 	}
